@@ -365,13 +365,14 @@ func setsSomewhere(f *core.Fn, pred func(ast.Node) bool) bool {
 }
 
 // holdDeadlineAndTicker:
-//   (a) every hello sets the holding deadline to what THAT hello announces: neighbor.updateTimeout stores its argument
-//       on every path (a "never move the deadline backwards" guard keeps an adjacency Up for the longest holding time
-//       ever announced after the neighbor went silent);
-//   (b) the ticker that paces a neighbor's timeout checks is stopped by the goroutine that created it: a deferred
-//       Stop() on a ticker field needs an assignment of that field from a constructor call earlier in the same function —
-//       a ticker handed in from outside (shared per interface) is stopped for everybody by the first neighbor disposed,
-//       after which no silent neighbor on that interface is ever taken Down.
+//
+//	(a) every hello sets the holding deadline to what THAT hello announces: neighbor.updateTimeout stores its argument
+//	    on every path (a "never move the deadline backwards" guard keeps an adjacency Up for the longest holding time
+//	    ever announced after the neighbor went silent);
+//	(b) the ticker that paces a neighbor's timeout checks is stopped by the goroutine that created it: a deferred
+//	    Stop() on a ticker field needs an assignment of that field from a constructor call earlier in the same function —
+//	    a ticker handed in from outside (shared per interface) is stopped for everybody by the first neighbor disposed,
+//	    after which no silent neighbor on that interface is ever taken Down.
 func holdDeadlineAndTicker(c *core.Ctx) {
 	p := c.P
 	const ruleA, ruleB = "deadline-follows-the-last-hello", "checker-stops-its-own-ticker"
